@@ -167,6 +167,10 @@ def sanitizer_verdict(g):
         return "LeakSanitizer: %s bytes leaked in %s allocation(s)" % (m.group(1), m.group(2)) if m else "LeakSanitizer: memory leaks"
     if "leaked reference" in err:
         return "shutdown reports a leaked reference"
+    if "SIGSEGV" in err or "Segmentation fault" in err or (g.get("rc") not in (0, None) and g.get("rc", 0) < 0):
+        return "the compiled program crashes (segmentation fault) -- access through an invalid pointer"
+    if g.get("rc") not in (0, None):
+        return "the compiled program ends abnormally (exit status %s): %s" % (g.get("rc"), err.strip().splitlines()[-1][:120] if err.strip() else "")
     return None
 
 
